@@ -256,6 +256,21 @@ class Tracer:
         if len(params) != len(a) or callee.args.vararg or callee.args.kwarg:
             return None
         elems = [p_ for p_, v_ in zip(params, a) if isinstance(v_, ElemObj)]
+        if not elems:
+            # no element handed over: a function that runs whole passes itself - a loop over one of its parameters (the collection) whose
+            # body passes the loop variable on to repository functions or appends to its lists
+            for lp in [n for n in ast.walk(callee) if isinstance(n, ast.For)]:
+                it_ = lp.iter
+                if isinstance(it_, ast.Call) and isinstance(it_.func, ast.Attribute) and it_.func.attr in ("values", "items") and not it_.args:
+                    it_ = it_.func.value
+                if isinstance(it_, ast.Name) and it_.id in params and isinstance(dict(zip(params, a)).get(it_.id), (Path, Opaque)):
+                    tv = lp.target.elts[-1] if isinstance(lp.target, ast.Tuple) else lp.target
+                    if isinstance(tv, ast.Name) and any(
+                            isinstance(c, ast.Call) and any(isinstance(x, ast.Name) and x.id == tv.id for x in c.args) and (
+                                res(dotted(c.func) or "") is not None or res((dotted(c.func) or "").split(".")[-1]) is not None)
+                            for c in ast.walk(lp)):
+                        return (callee, None)
+            return None
         if len(elems) != 1:
             return None
         ep = elems[0]
